@@ -85,6 +85,10 @@ def spec(fn=None, recursive=False, reads=(), returns='val', unfold=1, kind=None,
 def resolve(target):
     """'pkg.mod:Class.meth' -> (function object, defining class or None)."""
     modname, qual = target.split(':')
+    if '@' in qual:
+        from . import slices
+        fn, owner = resolve(target.split('@')[0])
+        return slices.build(target, fn), owner
     mod = importlib.import_module(modname)
     obj = mod
     owner = None
